@@ -163,7 +163,8 @@ Store(s, n, v) ==
                     !.fresh = @ \cup {n}]
 Emit(s, e) == [s EXCEPT !.out = Append(@, e)]
 R(v, s) == [v |-> v, s |-> s]
-Alloc(s, xs) == LET id == Len(s.h) + 1 IN R(VL(id), [s EXCEPT !.h = Append(@, xs)])
+Alloc(s, xs) == LET id == Len(s.h) + 1 IN
+               R(VL(id), [(IF s.inloop THEN Feat(s, {"list-created-in-loop"}) ELSE s) EXCEPT !.h = Append(@, xs)])
 
 (* mutation of a list that another name also refers to *)
 MutFeat(s, n, id) ==
@@ -316,7 +317,9 @@ Exec(b, i, s) ==
     ELSE IF s.fuel <= 0 THEN Bad(s)
     ELSE LET x == b[i]   s1 == [s EXCEPT !.fuel = @ - 1] IN
      LET after ==
-      CASE x.k = "assign" -> LET r == Eval(x.e, s1) IN (IF IsErr(r.v) \/ r.v.t = "none" THEN Bad(r.s) ELSE Store(r.s, x.n, r.v))
+      CASE x.k = "assign" -> LET r == Eval(x.e, s1) IN
+              (IF IsErr(r.v) \/ r.v.t = "none" THEN Bad(r.s)
+               ELSE Store(IF r.v.t = "l" /\ x.e.k = "var" THEN Feat(r.s, {"list-alias-created"}) ELSE r.s, x.n, r.v))
         [] x.k = "aug" -> LET r == Eval(x.e, s1)
                               cur == Lookup(r.s, x.n)
                               v == IF IsErr(cur) \/ IsErr(r.v) THEN ERR ELSE Arith(x.op, cur, r.v) IN
@@ -385,14 +388,21 @@ Exec(b, i, s) ==
      IN Exec(b, i + 1, after)
 
 -----------------------------------------------------------------------------
+(* live list data of the Python program: elements of the lists reachable from global names *)
+ReachIds(s) == {s.g[n].id : n \in {m \in DOMAIN s.g : s.g[m].t = "l"}}
+RECURSIVE SumLens(_, _)
+SumLens(s, ids) == IF ids = {} THEN 0 ELSE LET x == CHOOSE y \in ids : TRUE IN Len(s.h[x]) + SumLens(s, ids \ {x})
+PyLive(s) == SumLens(s, ReachIds(s))
+Sampled(s) == [s EXCEPT !.lv = Append(@, PyLive(s))]
+
 S0 == [g |-> [x \in {} |-> ERR], l |-> NoLocals, gl |-> {}, h |-> <<>>, out |-> <<>>, ok |-> TRUE, fuel |-> FUEL0,
-       sig |-> "n", ret |-> VNone, depth |-> 0, fn |-> "", inp |-> 1, born |-> {}, fresh |-> {}, inloop |-> FALSE, nest |-> 0, hm |-> {}, ty |-> [x \in {} |-> {}], feat |-> {}]
+       sig |-> "n", ret |-> VNone, depth |-> 0, fn |-> "", inp |-> 1, born |-> {}, fresh |-> {}, inloop |-> FALSE, nest |-> 0, hm |-> {}, lv |-> <<>>, ty |-> [x \in {} |-> {}], feat |-> {}]
 Init == pid \in 1..Len(Progs) /\ st = S0 /\ phase = "boot" /\ pass = 0
 Setup == /\ phase = "boot" /\ phase' = "setup" /\ pass' = 0
-         /\ st' = Exec(Prog.setup, 1, st) /\ UNCHANGED pid
+         /\ st' = Sampled(Exec(Prog.setup, 1, st)) /\ UNCHANGED pid
 LoopPass == /\ phase \in {"setup", "loop"} /\ pass < Prog.npass /\ st.ok /\ st.sig = "n" /\ Prog.hasloop
             /\ phase' = "loop" /\ pass' = pass + 1
-            /\ st' = Exec(Prog.loop, 1, [Emit(st, [e |-> "pass", k |-> pass + 1]) EXCEPT !.fuel = FUEL0, !.inloop = TRUE, !.fresh = {}, !.nest = 1])
+            /\ st' = Sampled(Exec(Prog.loop, 1, [Emit(st, [e |-> "pass", k |-> pass + 1]) EXCEPT !.fuel = FUEL0, !.inloop = TRUE, !.fresh = {}, !.nest = 1]))
             /\ UNCHANGED pid
 Next == Setup \/ LoopPass
 Done == phase # "boot" /\ (~st.ok \/ st.sig # "n" \/ ~Prog.hasloop \/ pass = Prog.npass)
